@@ -1213,6 +1213,8 @@ func (c *Compiler) optimizeFunc(node parser.Node) {
 	iterateInstructions(c.scopes[c.scopeIndex].Instructions,
 		func(pos int, opcode parser.Opcode, operands []int) bool {
 			switch {
+			case verifKeepDeadCode():
+				// verification build only: keep every instruction
 			case dsts[pos]:
 				dstIdx++
 				deadCode = false
@@ -1270,6 +1272,8 @@ func (c *Compiler) optimizeFunc(node parser.Node) {
 			newSourceMap[newPos] = srcPos
 		}
 	}
+	verifOptimized(c.scopes[c.scopeIndex].Instructions, posMap, newInsts,
+		c.scopes[c.scopeIndex].SourceMap, newSourceMap, appendReturn)
 	c.scopes[c.scopeIndex].Instructions = newInsts
 	c.scopes[c.scopeIndex].SourceMap = newSourceMap
 
